@@ -7,8 +7,8 @@ PROP = {'areas': [{'area': 'c12', 'corpus': ['corpus/C12/d13.txt', 'corpus/C12/d
              'compute_optional_state_transition, transition_to_state with both short-circuits, event emission, last_connack / last_disconnect / last_error, '
              'apply_error); the event loops client/asynchronous/tokio/mod.rs 49-320 and client/synchronous/threaded/mod.rs 65-395 as ONE transition system over '
              'abstract driver events with a flag for their differences (Client/Driver.v)',
- 'not_modelled': 'the protocol engine is abstract in the positive theorems (8 engine facts = hypotheses, evaluated on the real engine on every run; the refutations use '
-                 'Engine/Instance.v); tokio scheduling / select! branch choice / thread interleavings / Instant::now() are quantified over as event orders and time '
+ 'not_modelled': 'the protocol engine is the engine MODEL (Engine/Instance.v i_step) in the composed theorems - the 8 engine facts are proved for it on every '
+                 'well-formed engine state and stay evaluated on the real engine on every run; real tokio scheduling / select! branch choice / thread interleavings / Instant::now() are quantified over as event orders and time '
                  'arguments in the model and only SAMPLED on the real loops (area c12r); listeners and callback spawning; stream shutdown',
  'rule': 'c12: (a) the complete 5x5x3 compute_optional_state_transition table is regenerated from the compiled implementation and compared cell by cell with '
          'the model and the specification (exhaustive); (b) histories of 6..66 abstract driver events (operation start/stop/stop-with-DISCONNECT/close/publish, '
@@ -22,13 +22,21 @@ PROP = {'areas': [{'area': 'c12', 'corpus': ['corpus/C12/d13.txt', 'corpus/C12/d
 META = {'design_ref': 'DESIGN.md section 7 / C12, Appendix D',
  'level_note': 'Proved for the MODEL of both loops over ALL event orders; the tie to the real loops is (i) exact lock-step of MqttClientImpl through the facade, '
                '(ii) SAMPLED runs of the real tokio / threaded clients on scripted transports: scheduler fairness, select! branch choice, thread interleavings and '
-               'OS write semantics are quantified over in the model only. Engine facts are hypotheses of the positive theorems (checked on every observed engine '
-               'call). D13 (stop-with-DISCONNECT during the handshake never stopped) and D10b (huge connect_timeout panicked the loop) were found here and are fixed (d52fbbc, 8daf4ff); their witnesses run as regression cases.',
+               'OS write semantics are quantified over in the model only. The engine hypothesis of the abstract theorems is discharged for the engine model '
+               '(C12_engine_model_facts, C12_composed_*); on the real engine the facts are checked on every observed engine call. D13 (stop-with-DISCONNECT during the handshake never stopped) and D10b (huge connect_timeout panicked the loop) were found here and are fixed (d52fbbc, 8daf4ff); their witnesses run as regression cases.',
  'level_text': 'Coq theorems over models of MqttClientImpl and of both event loops: for every list of driver events (every schedule, transport behaviour, request '
                'timing) the emitted client events are a prefix of (Attempt (Failure | Success Disconnection))* with Stopped only between attempts '
                '(C12_event_grammar) and no transition_to_state fails (C12_loop_alive), given eight stated engine facts; compute_optional_state_transition equals '
                'its specification on all 75 inputs (C12_transition_table); stop / restart / close theorems (C12_stop_stops, C12_stop_waits_only_when_established, C12_restartable, '
                'C12_close_terminal); the former D13 / D10b counterexamples as regression theorems on the engine model '
-               '(C12_stop_during_handshake_stops, C12_loop_alive_huge_timeout, C12_deadline_total).',
+               '(C12_stop_during_handshake_stops, C12_loop_alive_huge_timeout, C12_deadline_total). '
+               'The engine hypothesis is DISCHARGED for the real engine model: the adapter Client/ImplEngine.v over Engine/Instance.v (i_init / i_step) satisfies all '
+               'eight facts on every well-formed engine state (C12_engine_model_facts; invariant = the engine WF invariant WFX, from C07_protocol_state_table, '
+               'the close spec of C11 and EngineProofs/ConnackEvents.v), so event grammar, loop alive, stop stops (both forms), wait only when established, '
+               'restartable and close terminal hold for the COMPOSED model client + engine with no premise but environment bounds (ok_cfg: finite ping timeout; '
+               'clock below 2^62 ms): C12_composed_event_grammar / _loop_alive / _stop_stops / _stop_stops_two_events / _stop_waits_only_when_established / '
+               '_restartable / _close_terminal / _engine_wf, with an executable run C12_composed_run (CONNACK bytes from the reference encoder). What remains '
+               'modelled rather than proved about the real code: the real scheduler, select! branch choices and threads (event orders are quantified over in the '
+               'model and sampled on the real loops), and the engine model itself is tied to protocol.rs by the lock-step areas of C06-C11.',
  'technique': 'machine-checked proof in Coq (invariants by induction over driver-event lists; vm_compute witnesses on the engine model) + exhaustive table '
               'regeneration + lock-step correspondence of the extracted model with the implementation + sampled runs of the real drivers'}
